@@ -7,7 +7,7 @@
    events. *)
 From Coq Require Import List String NArith Arith Bool.
 From YVGen Require Import Consts ImportArms.
-From YV Require Import Modules ModulesProofs.
+From YV Require Import Modules ModuleSpec ModLang ModulesProofs ModRefine.
 Import ListNotations.
 Open Scope string_scope.
 
@@ -22,6 +22,11 @@ Definition CHK : bool := gen_registry_hit_checks_loading.
 Definition GRD : bool := gen_builtins_init_guarded.
 Theorem C14_side_variant : CHK = true /\ GRD = true /\ gen_is_loading_is_body_frame_of_module = true.
 Proof. vm_compute; repeat split; reflexivity. Qed.
+(* is_loading_module recognises a module body by the EMPTY function name: only the script compiler gets it
+   (functions and methods are named by an identifier token, initialisers by an attribute argument, lambdas
+   "lambda-N"), so a running lambda or function of a failed module is never mistaken for its body *)
+Theorem C14_side_only_script_has_empty_name : gen_only_script_has_empty_name = true /\ gen_lambda_name_fmt = "lambda-{}".
+Proof. vm_compute; split; reflexivity. Qed.
 
 Section Oracles.
   Variables SrcId Body : Type.
@@ -249,6 +254,29 @@ Proof.
            startup_names_in_every_module SrcId Body loader compiler B C FM CHK GRD evs id b C14_side_no_main_only_names).
 Qed.
 
+(* --- refinement of the Spec by the Mechanism on the module mini-language (ModRefine.v): for EVERY program without
+       try/catch (any import graph: chains, DAGs, diamonds, self-imports and longer cycles, missing and uncompilable
+       members, functions exported across modules, the frame limit), every module map and fuel, the printed lines,
+       the loader calls and the outcome of ModLang.eval_mech's run equal those of the Spec's run --- *)
+Theorem C14_core_in_builtins : forall c, In c C -> In c B.
+Proof. exact (fun c Hc => main_only_empty_incl B C C14_side_no_main_only_names c (in_or_app B C c (or_intror Hc))). Qed.
+
+Theorem C14_mech_refines_spec_tryfree : forall (prog : program) (cm : list (list (list string))) (fuel : nat),
+  tf_prog prog = true -> mech_obs prog cm B FM CHK GRD fuel C = spec_obs prog (B ++ C) FM fuel.
+Proof. exact (fun prog cm fuel => mech_refines_spec_tryfree prog cm B C FM C14_core_in_builtins fuel). Qed.
+
+(* THE REFINEMENT, all programs: also with try/catch - caught cycle / load / compile errors and thrown values followed by
+   further work, re-imports after a failed import, imports in functions called from try blocks, the frame limit.
+   (Stage A above is the special case proved first; it needs neither the handler discipline nor the "zombie" relation.) *)
+Theorem C14_mech_refines_spec : forall (prog : program) (cm : list (list (list string))) (fuel : nat),
+  mech_obs prog cm B FM CHK GRD fuel C = spec_obs prog (B ++ C) FM fuel.
+Proof. exact (fun prog cm fuel => mech_refines_spec prog cm B C FM C14_core_in_builtins fuel). Qed.
+
+(* stage 1: single-module programs *)
+Theorem C14_refines_single_module : forall (ts : list top) (cm : list (list (list string))) (fuel : nat),
+  tf_prog [MOk ts] = true -> mech_obs [MOk ts] cm B FM CHK GRD fuel C = spec_obs [MOk ts] (B ++ C) FM fuel.
+Proof. exact (fun ts cm fuel => mech_refines_spec_tryfree [MOk ts] cm B C FM C14_core_in_builtins fuel). Qed.
+
 (* --- the two repaired defects: behaviour of the current variant, and the old behaviour as refutations on the
        model variant with both booleans false (witnesses by computation; frames_max = 3 instance) --- *)
 Theorem C14_reimport_after_failed_body_reloads :
@@ -318,6 +346,11 @@ Print Assumptions C14_side_active_module_sites.
 Print Assumptions C14_side_builtin_names_known.
 Print Assumptions C14_side_no_main_only_names.
 Print Assumptions C14_startup_names_in_every_module.
+Print Assumptions C14_side_only_script_has_empty_name.
+Print Assumptions C14_core_in_builtins.
+Print Assumptions C14_mech_refines_spec_tryfree.
+Print Assumptions C14_mech_refines_spec.
+Print Assumptions C14_refines_single_module.
 Print Assumptions C14_reimport_after_failed_body_reloads.
 Print Assumptions C14_import_at_frame_limit_is_clean.
 Print Assumptions C14_import_at_frame_limit_refuted_old.
